@@ -371,6 +371,11 @@ func cmdCheck(args []string) int {
 		violations++
 		rp := filepath.Join(replayDir, fmt.Sprintf("%02d_%s.json", i+1, trunc(sanitize.ReplaceAllString(f.FullName, "_"), 120)))
 		cex := searchCounterexample(prop, f, *tier)
+		if cex == nil || !cex.Reproduced {
+			if c2 := catalogReplay(f); c2 != nil {
+				cex = c2
+			}
+		}
 		rec := map[string]interface{}{
 			"property": prop, "unit": f.Unit, "function": f.Func, "obligation": f.Ob.Name, "kind": f.Ob.Kind, "at": f.Ob.Pos,
 			"treatment": f.Treatment, "reason": f.Reason, "solver_answer": f.Ob.Answer, "solver": f.Ob.Solver, "smt_query": f.Ob.SMTFile,
@@ -521,4 +526,48 @@ func cmdReplay(args []string) int {
 		}
 	}
 	return 0
+}
+
+// ---------- hand-written replay adapters ----------
+
+type adapter struct {
+	ID         string `json:"id"`
+	Obligation string `json:"obligation"`
+	Pkg        string `json:"pkg"`
+	Test       string `json:"test"`
+	Run        string `json:"run"`
+}
+
+var adapterCache = map[string]*Cex{}
+
+func catalogReplay(f failure) *Cex {
+	b, err := os.ReadFile(filepath.Join(verifDir(), "replay", "catalog.json"))
+	if err != nil {
+		return nil
+	}
+	var cat struct {
+		Adapters []adapter `json:"adapters"`
+	}
+	if json.Unmarshal(b, &cat) != nil {
+		return nil
+	}
+	for _, a := range cat.Adapters {
+		if !globMatch(a.Obligation, f.FullName) {
+			continue
+		}
+		if c, ok := adapterCache[a.ID]; ok {
+			if c != nil && c.Reproduced {
+				return c
+			}
+			continue
+		}
+		tf := filepath.Join(verifDir(), a.Test)
+		_, out := runReplayTest(a.Pkg, tf, a.Run)
+		c := &Cex{Source: "recorded witness " + a.Test + " (hand-written replay adapter for this function) run against the real code", Pkg: a.Pkg, TestFile: tf, Run: a.Run, Output: lastLines(out, 4), Reproduced: strings.Contains(out, "DEFECT-REPRODUCED")}
+		adapterCache[a.ID] = c
+		if c.Reproduced {
+			return c
+		}
+	}
+	return nil
 }
